@@ -125,3 +125,13 @@ fn get_skip_names(kind: &str, attrs: &[ast::Attribute]) -> Vec<String> {
     }
     skip_names
 }
+
+#[cfg(feature = "verif-hooks")]
+pub(crate) mod verif_local {
+    use super::*;
+
+    /// `get_skip_names(kind, attrs)` in the order of the returned vector.
+    pub(crate) fn skip_names(kind: &str, attrs: &[ast::Attribute]) -> Vec<String> {
+        get_skip_names(kind, attrs)
+    }
+}
